@@ -97,6 +97,16 @@ func (g *g) subMaybeReal(verb string, script string, pct int) {
 	g.sub(verb, script)
 }
 
+// DA outages of finite length handled by the UNMODIFIED loop goroutines: a whole retry round fails (33 errors > 30
+// attempts), the DA answers 'context canceled', mixed failures - afterwards the DA double accepts
+var outages = []string{
+	strings.TrimSuffix(strings.Repeat("error|", 33), "|"),
+	"canceled",
+	"error|canceled|notincluded|canceled",
+	"lost|toobig|canceled|inmempool|ok:1|canceled",
+	strings.TrimSuffix(strings.Repeat("notincluded|", 31), "|") + "|canceled|error",
+}
+
 func GenC06(r *hx.Rng, tier string, w io.Writer) {
 	x := &g{w: w, r: r}
 	// corpus: initial height above 1 (recorded finding)
@@ -244,6 +254,20 @@ func GenC07(r *hx.Rng, tier string, w io.Writer) {
 		fmt.Fprintln(w, "crash keep=9")
 		fmt.Fprintln(w, "incl")
 	}
+	// outages through the unmodified submission loop goroutines, then inclusion: everything is reported
+	for i, sc := range outages {
+		x.reset(uint64(1+i%3), 0)
+		x.produce(false)
+		x.produce(true)
+		x.produce(false)
+		x.sub("subhreal", sc)
+		x.sub("subdreal", sc)
+		if i%2 == 0 {
+			fmt.Fprintln(w, "inclreal")
+		} else {
+			fmt.Fprintln(w, "incl")
+		}
+	}
 	n := 60
 	if tier == "thorough" {
 		n = 900
@@ -327,6 +351,20 @@ func GenC08(r *hx.Rng, tier string, w io.Writer) {
 	x.produce(true)
 	x.reset(5, 3)
 	x.produce(false)
+	// an outage of finite length through the unmodified loop goroutines, then the DA layer accepts: production, refused
+	// at the limit, must resume (C08: "resumes as soon as the DA layer has accepted them")
+	for i, sc := range outages {
+		lim := uint64(2 + i%2)
+		x.reset(1, lim)
+		for j := uint64(1); j < lim; j++ {
+			x.produce(j%2 == 0)
+		}
+		x.produce(false) // refused: the limit is reached
+		x.sub("subhreal", sc)
+		x.sub("subdreal", sc)
+		x.produce(false)
+		x.produce(i%2 == 0)
+	}
 	// a block repeating an earlier block's transaction list (same data commitment) after the earlier one was accepted,
 	// then the chain goes idle: nothing is genuinely waiting once the DA layer accepted it, production must go on
 	x.reset(1, 3)
@@ -409,8 +447,12 @@ func GenC08(r *hx.Rng, tier string, w io.Writer) {
 				// blocks are passed over by the tick after the one that got the data before them accepted), then
 				// production must resume
 				if r.Chance(25) {
-					x.sub("subhreal", "-")
-					x.sub("subdreal", "-")
+					sc := "-"
+					if r.Chance(60) {
+						sc = outages[r.Intn(len(outages))]
+					}
+					x.sub("subhreal", sc)
+					x.sub("subdreal", sc)
 				} else {
 					x.sub("subh", "-")
 					x.sub("subd", "-")
